@@ -9,6 +9,11 @@ What the assembly changes (and nothing else; anything unexpected -> Undecided):
   W5 `for p in e` becomes `for p in vx_it<k>: e` (names Verus' ghost iterator so invariants can mention it)
   W6 trait-impl methods are emitted in an inherent impl (Verus forbids requires on trait impls); `Self::Item` in the
      signature is replaced by the impl's own `type Item = ..;`
+  W8  `for (I, X) in E.iter().enumerate() { B }`      -> `for I in 0..E.len() { let X = &E[I]; B }`
+  W9  `for (I, X) in E.iter_mut().enumerate() { B }`  -> `for I in 0..E.len() { B[X := E[I]] }` (X occurs in B only as a plain path)
+  W10 `(0..N).map(|_| vec![]).collect()` -> `vx_empty_lists(N)`; `flatten!(E)` -> `vx_flatten(E)` (the macro's definition is checked to be
+      `$array.into_iter().flatten().collect::<Vec<_>>()`); both are external_body functions with an assumed std specification
+  W11 `fn f(mut self, ..) { B }` -> `fn f(self, ..) { let mut vx_self = self; B[self := vx_self] }` (Verus has no `mut self` parameters)
   W7 `struct_keep`: a struct is reduced to the fields the units under contract read (names and types verbatim, generics dropped)
   W4 requires/ensures/invariant/decreases/proof text from the .vspec file is inserted before the body / loop body /
      a named statement. The .vspec text contains no executable statements.
@@ -61,14 +66,46 @@ def transform_fn(tree, fn, spec, keep_vis=False):
     con = "".join(spec.get("fn " + path, []))
     if con.strip():
         edits.append((body0, body0, "\n" + con.rstrip() + "\n"))
+    T = lambda n: raw[n["sp"][0]:n["sp"][1]].decode()
     for k, lp in enumerate(_loops(fn)):
+        inv = "".join(spec.get("loop %s #%d" % (path, k), []))
+        e = lp.get("e") if lp["k"] == "for" else None
+        if e is not None and e.get("k") == "mcall" and e["m"] == "enumerate" and e["recv"].get("k") == "mcall" and e["recv"]["m"] in ("iter", "iter_mut") \
+                and not e["args"] and not e["recv"]["args"]:
+            # W8 / W9
+            pat = lp["pat"]
+            if pat["k"] != "ptuple" or len(pat["elems"]) != 2 or any(x["k"] != "pident" or x["mut"] or x["byref"] for x in pat["elems"]):
+                raise Undecided("for-enumerate pattern outside the E1 subset in %s" % path)
+            I, X = pat["elems"][0]["name"], pat["elems"][1]["name"]
+            E = T(e["recv"]["recv"])
+            head = "for %s in vx_it%d: 0..%s.len()" % (I, k, E)
+            edits.append((lp["hsp"][0], lp["hsp"][1], head + ("\n" + inv.rstrip() + "\n" if inv.strip() else "")))
+            b0 = lp["body"]["sp"][0]
+            if e["recv"]["m"] == "iter":
+                edits.append((b0 + 1, b0 + 1, " let %s = &%s[%s];" % (X, E, I)))
+            else:
+                uses = extract.find_nodes(lp["body"], lambda n: n.get("k") == "path" and n["segs"] == [X])
+                binds = extract.find_nodes(lp["body"], lambda n: n.get("k") == "pident" and n.get("name") == X)
+                if binds: raise Undecided("W9: %s is re-bound inside the loop body in %s" % (X, path))
+                for u_ in uses: edits.append((u_["sp"][0], u_["sp"][1], "%s[%s]" % (E, I)))
+            continue
         if lp["k"] == "for":
             # W5: name the ghost iterator of a for loop (Verus syntax `for x in it: e`); executable semantics unchanged
             edits.append((lp["e"]["sp"][0], lp["e"]["sp"][0], "vx_it%d: " % k))
-        inv = "".join(spec.get("loop %s #%d" % (path, k), []))
         if inv.strip():
             at = lp["hsp"][1]
             edits.append((at, at, "\n" + inv.rstrip() + "\n"))
+    # W10
+    def is_empty_lists(n):
+        try:
+            return (n["k"] == "mcall" and n["m"] == "collect" and n["recv"]["k"] == "mcall" and n["recv"]["m"] == "map"
+                    and n["recv"]["recv"]["k"] == "paren" and n["recv"]["recv"]["e"]["k"] == "range" and not n["recv"]["recv"]["e"]["inclusive"]
+                    and T(n["recv"]["recv"]["e"]["lo"]) == "0" and len(n["recv"]["args"]) == 1 and n["recv"]["args"][0]["k"] == "closure"
+                    and [q["k"] for q in n["recv"]["args"][0]["params"]] == ["pwild"] and T(n["recv"]["args"][0]["body"]).replace(" ", "") == "vec![]")
+        except (KeyError, TypeError):
+            return False
+    for m in extract.find_nodes(fn["body"], is_empty_lists):
+        edits.append((m["sp"][0], m["sp"][1], "vx_empty_lists(%s)" % T(m["recv"]["recv"]["e"]["hi"])))
     # W2
     for m in extract.find_nodes(fn["body"], lambda n: n.get("k") == "macro"):
         name = m["name"]
@@ -80,6 +117,14 @@ def transform_fn(tree, fn, spec, keep_vis=False):
             rep = "if !(%s == %s) { vx_panic(); }" % (a, b)
         elif name in ("panic", "unreachable"):
             rep = "vx_panic()"
+        elif name == "vec" and not (m.get("raw") or "").strip():
+            continue   # `vec![]` inside a W10 pattern (replaced as a whole) or a plain empty vector (Verus knows vec!)
+        elif name == "flatten":
+            # W10: the macro must be the one-liner over into_iter().flatten().collect()
+            import re as _re
+            mdef = _re.search(r"macro_rules!\s*flatten\s*\{\s*\(\$array:expr\)\s*=>\s*\{\s*\$array\.into_iter\(\)\.flatten\(\)\.collect::<Vec<_>>\(\)\s*\};?\s*\}", tree["_text"])
+            if not mdef: raise Undecided("lost anchor: macro_rules! flatten is not into_iter().flatten().collect::<Vec<_>>()")
+            rep = "vx_flatten(%s)" % m["raw"].strip()
         else:
             raise Undecided("macro %s! in %s is outside the E1 subset" % (name, path))
         end = m["sp"][1]
@@ -111,6 +156,14 @@ def transform_fn(tree, fn, spec, keep_vis=False):
             at = body0 + len(body_txt[:pos].encode()) + (len(needle.encode()) if mm.group(2) == "after" else 0)
         edits.append((at, at, "\n" + "".join(texts).rstrip() + "\n"))
     for key, texts in spec.items():
+        mm = re.match(r"proof (\S+) end-of-loop-body #(\d+)$", key)
+        if not mm or mm.group(1) != path: continue
+        lps = _loops(fn)
+        k = int(mm.group(2))
+        if k >= len(lps): raise Undecided("lost anchor: loop #%d of %s" % (k, path))
+        at = lps[k]["body"]["sp"][1] - 1
+        edits.append((at, at, "\n" + "".join(texts).rstrip() + "\n"))
+    for key, texts in spec.items():
         mm = re.match(r"proof (\S+) after-loop #(\d+)$", key)
         if not mm or mm.group(1) != path: continue
         lps = _loops(fn)
@@ -126,7 +179,20 @@ def transform_fn(tree, fn, spec, keep_vis=False):
             raise Undecided("overlapping rewrites in %s" % path)
         out.append(raw[cur:s].decode()); out.append(r); cur = e
     out.append(raw[cur:hi].decode())
-    return "".join(out)
+    text = "".join(out)
+    selfp = [q for q in sig.get("params", []) if q.get("k") == "self"]
+    if selfp and selfp[0].get("mut") and not selfp[0].get("ref"):
+        # W11
+        import re as _re
+        head_len = len("".join(out[:1]))  # not used; split at the first `{` after the contract instead
+        m0 = _re.search(r"\(\s*mut\s+self\b", text)
+        if not m0: raise Undecided("W11: `mut self` not found in the signature text of %s" % path)
+        text = text[:m0.start()] + "(self" + text[m0.end():]
+        # body starts at the `{` that follows the spliced contract: it is the first `{` at brace depth 0 after the signature's `)`
+        k0 = text.index("{", text.index(con.rstrip()) + len(con.rstrip()) if con.strip() else text.index(")"))
+        body = _re.sub(r"\bself\b", "vx_self", text[k0 + 1:])
+        text = text[:k0 + 1] + "\n        let mut vx_self = self;" + body
+    return text
 
 
 def transform_struct(tree, st):
@@ -164,14 +230,15 @@ def assemble(spec_path, layout):
             slices.append({"item": "struct " + item[2], "slice_sha": extract.sha(extract.text_of(tree, st))})
         elif item[0] == "struct_keep":
             # W7: a struct reduced to the fields the units under contract read (field names and types verbatim, generics dropped)
-            _, file, name, newname, keep = item
+            _, file, name, newname, keep = item[:5]
+            tysub = item[5] if len(item) > 5 else {}
             tree = extract.vx_dump(extract.src_path(file))
             st = extract.all_items(tree, "struct").get(name)
             if st is None: raise Undecided("lost anchor: struct %s" % name)
             have = {f["name"]: f for f in st["fields"]}
             miss = [k for k in keep if k not in have]
             if miss: raise Undecided("lost anchor: fields %r of struct %s" % (miss, name))
-            parts.append("pub struct %s {\n%s}\n" % (newname, "".join("    pub %s: %s,\n" % (k, have[k]["ty"]) for k in keep)))
+            parts.append("pub struct %s {\n%s}\n" % (newname, "".join("    pub %s: %s,\n" % (k, tysub.get(have[k]["ty"].replace(" ", ""), have[k]["ty"])) for k in keep)))
             slices.append({"item": "struct %s (fields %s)" % (name, ", ".join(keep)), "slice_sha": extract.sha(extract.text_of(tree, st))})
         elif item[0] == "impl":
             parts.append(item[1] + " {\n")
@@ -246,6 +313,10 @@ def results_per_function(prefix, r, text, fn_names, unit):
         if msg.startswith("aborting") : continue
         failed.setdefault(f, []).append("line %d: %s" % (ln, msg))
     hard = [x for fs in failed.values() for x in fs if not re.search(r"postcondition|precondition|invariant|assertion|decreases|overflow|underflow|arithmetic|index|bounds|recommend", x)]
+    if hard or re.search(r"error\[E\d+\]", err):
+        # compile / type / unsupported-feature errors are machinery trouble, never a refutation
+        det = ("verus rejected the assembled file (not a proof failure): " + "; ".join(hard[:3]) + "\n" + err[-1500:])
+        return [Result("%s.%s" % (prefix, lbl), "E1", "undecided", 0.0, "verus", det, unit, file=r["path"]) for lbl in fn_names.values()]
     total_t = (js.get("times-ms", {}) or {}).get("total", 0) / 1000.0 if isinstance(js.get("times-ms"), dict) else r["time"]
     per = max(0.01, r["time"] / max(1, len(fn_names)))
     if not vr.get("success", False) and not failed:
